@@ -5,6 +5,7 @@ package main
 // calling the JSON-RPC handler in-process.
 
 import (
+	"bytes"
 	"context"
 	"encoding/json"
 	"flag"
@@ -339,5 +340,17 @@ func vfCloseLeaked(dir string) {
 				syscall.Close(n)
 			}
 		}
+	}
+}
+
+// vfQuiesce waits (up to 10 s) until no goroutine of an epoch search is left running.
+func vfQuiesce() {
+	buf := make([]byte, 4<<20)
+	for i := 0; i < 2000; i++ {
+		n := runtime.Stack(buf, true)
+		if !bytes.Contains(buf[:n], []byte("yellowstone-faithful.FirstSuccess")) {
+			return
+		}
+		time.Sleep(5 * time.Millisecond)
 	}
 }
